@@ -5,12 +5,12 @@
    re-translated from /repo on every run (Gen/C08Conv.v); attribute_validate / required_validate (Model/C08Spec.v) compose
    them as Attribute.validate / Required.validate do and are compared with the real attr.validate on every run.
 
-   Known defect of the unchanged code: a declared bound equal to 0 is dropped (`min_val or lowest`, `if converter.min_val and ..`,
-   `if max_len and ..`).  The boolean flags int_zero_bound_ignored / real_zero_bound_ignored / str_zero_max_len_ignored are
-   COMPUTED from the translated code.  While a flag computes to true the `_except_known` theorem is the operative one and the
-   `_full_if_fixed` theorem is vacuous (Findings/C08.v then holds the refuting witness); once /repo is repaired the flag computes to
-   false, the `_full_if_fixed` theorem is the full statement and the witness theorem becomes vacuous.  The check reports the
-   computed flags in the evidence file and compares them with the real implementation. *)
+   int and float: the full statement, zero bounds included (the `min_val or lowest` / `if converter.min_val and ..` defect was
+   repaired in /repo commit 2abc421; the proofs compute `int_zero_bound_ignored = false` / `real_zero_bound_ignored = false`
+   from the regenerated translation, so reverting the repair breaks them).
+   str: `if max_len and ..` still treats max_len = 0 as "no limit" (known finding): C08_str_except_known is the operative
+   theorem, C08_str_full_if_fixed is vacuous while str_zero_max_len_ignored computes to true.  float NaN passes any bounds
+   (known finding): the float theorem speaks about non-NaN values. *)
 Require Import PonyV.Base.PyBase PonyV.Model.C08Base PonyV.Gen.C08Conv PonyV.Model.C08Spec PonyV.Proofs.C08IntInit PonyV.Proofs.C08Proofs.
 
 (* Which int declarations (size, unsigned, min, max) Pony accepts: exactly those with a legal size, a supported
@@ -20,39 +20,26 @@ Theorem C08_int_declaration : forall uint64 d,
 Proof. exact int_decl_ok_iff. Qed.
 Print Assumptions C08_int_declaration.
 
-(* For every accepted declaration without a zero bound and EVERY integer v: v is accepted (unchanged) iff it satisfies the
-   declared min/max and the bounds of the declared size/signedness; otherwise ValueError. *)
-Theorem C08_int_except_known : forall uint64 d c v,
-  init_of uint64 d = Ok c -> ~ zero_bound d ->
+(* For every accepted declaration and EVERY integer v: v is accepted (unchanged) iff it satisfies the declared min/max
+   and the bounds of the declared size/signedness; otherwise ValueError. *)
+Theorem C08_int : forall uint64 d c v,
+  init_of uint64 d = Ok c ->
   (int_validate (ic_min c) (ic_max c) v = Ok v <-> in_bounds d v).
-Proof. exact int_accept_except_known. Qed.
-Print Assumptions C08_int_except_known.
+Proof. exact int_accept. Qed.
+Print Assumptions C08_int.
 
-Theorem C08_int_reject_except_known : forall uint64 d c v,
-  init_of uint64 d = Ok c -> ~ zero_bound d -> ~ in_bounds d v ->
+Theorem C08_int_reject : forall uint64 d c v,
+  init_of uint64 d = Ok c -> ~ in_bounds d v ->
   int_validate (ic_min c) (ic_max c) v = Err ValueError.
-Proof. exact int_reject_except_known. Qed.
-Print Assumptions C08_int_reject_except_known.
+Proof. exact int_reject. Qed.
+Print Assumptions C08_int_reject.
 
-(* The full statement (all declarations, zero bounds included) for code that does not drop zero bounds. *)
-Theorem C08_int_full_if_fixed : forall uint64 d c v,
-  int_zero_bound_ignored = false -> init_of uint64 d = Ok c ->
-  (int_validate (ic_min c) (ic_max c) v = Ok v <-> in_bounds d v).
-Proof. exact int_accept_full_if_fixed. Qed.
-Print Assumptions C08_int_full_if_fixed.
-
-(* float attributes: every non-NaN value, every pair of (non-NaN) declared bounds none of which is zero *)
-Theorem C08_float_except_known : forall mn mx v,
-  ~ num_zero_bound mn mx -> v <> NNan -> not_nan_opt mn -> not_nan_opt mx ->
+(* float attributes: every non-NaN value, every pair of (non-NaN) declared bounds, zero included *)
+Theorem C08_float : forall mn mx v,
+  v <> NNan -> not_nan_opt mn -> not_nan_opt mx ->
   (real_validate mn mx v = Ok v <-> num_in_bounds mn mx v).
-Proof. exact real_accept_except_known. Qed.
-Print Assumptions C08_float_except_known.
-
-Theorem C08_float_full_if_fixed : forall mn mx v,
-  real_zero_bound_ignored = false -> v <> NNan -> not_nan_opt mn -> not_nan_opt mx ->
-  (real_validate mn mx v = Ok v <-> num_in_bounds mn mx v).
-Proof. exact real_accept_full_if_fixed. Qed.
-Print Assumptions C08_float_full_if_fixed.
+Proof. exact real_accept. Qed.
+Print Assumptions C08_float.
 
 Theorem C08_float_reject : forall mn mx v, real_validate mn mx v <> Ok v -> real_validate mn mx v = Err ValueError.
 Proof. exact real_reject. Qed.
@@ -129,17 +116,17 @@ Proof. exact required_none_deferred. Qed.
 Print Assumptions C08_required_none_deferred.
 
 (* end to end: Required(int, size=.., unsigned=.., min=.., max=.., py_check=..) *)
-Theorem C08_required_int_except_known : forall uint64 d c chk nullable val r,
-  init_of uint64 d = Ok c -> ~ zero_bound d ->
+Theorem C08_required_int : forall uint64 d c chk nullable val r,
+  init_of uint64 d = Ok c ->
   (required_validate (int_validate (ic_min c) (ic_max c)) chk (fun _ => false) nullable false false false val = Ok r <->
    exists v, val = Some v /\ in_bounds d v /\ check_ok chk v /\ r = Some v).
-Proof. exact required_int_except_known. Qed.
-Print Assumptions C08_required_int_except_known.
+Proof. exact required_int. Qed.
+Print Assumptions C08_required_int.
 
-(* non-vacuity: a concrete declaration (size=16, min=-5, max=300) is accepted, is outside the known class, accepts 300, rejects 301 *)
+(* non-vacuity: size=16, min=0, max=300 is an accepted declaration, accepts 0 and 300, rejects -1 and 301 *)
 Example C08_nonvacuous :
-  exists c, init_of true (mk_int_decl (Some 16) (Some false) (Some (-5)) (Some 300)) = Ok c
-            /\ int_validate (ic_min c) (ic_max c) 300 = Ok 300 /\ int_validate (ic_min c) (ic_max c) 301 = Err ValueError
-            /\ ~ zero_bound (mk_int_decl (Some 16) (Some false) (Some (-5)) (Some 300)).
+  exists c, init_of true (mk_int_decl (Some 16) (Some false) (Some 0) (Some 300)) = Ok c
+            /\ int_validate (ic_min c) (ic_max c) 0 = Ok 0 /\ int_validate (ic_min c) (ic_max c) 300 = Ok 300
+            /\ int_validate (ic_min c) (ic_max c) (-1) = Err ValueError /\ int_validate (ic_min c) (ic_max c) 301 = Err ValueError.
 Proof. exact c08_nonvacuous_int. Qed.
 Print Assumptions C08_nonvacuous.
